@@ -216,6 +216,10 @@ func FramesToFrameRange(frames []int, sorted bool, zfill int) string {
 		start = zfillInt(frames[0], zfill)
 		end = zfillInt(frames[i], zfill)
 		buf.WriteString(fmt.Sprintf("%s-%s", start, end))
+		// A descending range only needs the size of the step
+		if step < 0 {
+			step = -step
+		}
 		if step > 1 {
 			buf.WriteString(fmt.Sprintf("x%d", step))
 		}
